@@ -10,7 +10,7 @@ from copy import deepcopy
 from functools import partial
 from itertools import takewhile
 from operator import contains, eq
-from typing import Dict
+from typing import Dict, Optional
 
 from cdd.shared.pure_utils import (
     PY_GTE_3_8,
@@ -160,11 +160,22 @@ def extract_default(
     par: Dict[str, int] = {"{": 0, "[": 0, "(": 0, ")": 0, "]": 0, "}": 0}
     sub_l: str = line[_end_idx:default_end_offset]
     sub_l_len: int = len(sub_l)
+    quote_mark: Optional[str] = None
     for idx, ch in enumerate(sub_l):
+        if quote_mark is None:
+            if (
+                ch in frozenset(("'", '"'))
+                and not default.strip()
+                and ch in sub_l[idx + 1 :]
+            ):
+                quote_mark = ch  # a full stop inside the quoted default is part of it
+        elif ch == quote_mark:
+            quote_mark = None
         if (
             ch == "."
             and (idx == (sub_l_len - 1) or not (sub_l[idx + 1]).isdigit())
             and not sum(par.values())
+            and quote_mark is None
         ):
             break
         elif ch in par:
